@@ -19,7 +19,7 @@ RULE = (
     "sample or condition that is absent from this stage's rows"
 )
 ASSUMPTIONS = ["the lineage root is the screen handed to the hold-out split (what prepare_retrospective_simulation saves)"]
-REQUIRED = {"stages_checked": {"quick": 6000, "thorough": 60000}, "stages_with_holdout_only_conditions": {"quick": 3000, "thorough": 30000}, "prediction_comparisons": {"quick": 50000, "thorough": 500000}, "cli_stages": {"quick": 400, "thorough": 4000}}
+REQUIRED = {"stages_checked": {"quick": 6000, "thorough": 60000}, "stages_with_holdout_only_conditions": {"quick": 3000, "thorough": 30000}, "prediction_comparisons": {"quick": 50000, "thorough": 500000}, "cli_stages": {"quick": 400, "thorough": 4000}, "zero_row_stages": {"quick": 15, "thorough": 200}}
 N_LIN = {"quick": 640, "thorough": 6400}
 
 
@@ -81,6 +81,9 @@ def run_shard(rec, tier, seed, shard, nshards):
                     # like prepare_retrospective_simulation: reveal one plate before the split
                     root = R.reveal_plates(root, [int(rng.choice(root.unique_plate_ids))])
                 frac = float(rng.uniform(0.1, 0.6))
+                if rng.random() < 0.12:
+                    frac = float(rng.choice([0.0, 1.0]))  # empty test screen / training screen without unobserved rows
+                    rec.count("lineages_extreme_fraction")
                 train, test = R.create_plate_balanced_holdout_set_among_masked_plates(root, frac, rng)
             except Exception as e:
                 rec.did_not_return("prepare", e)
@@ -115,6 +118,29 @@ def run_shard(rec, tier, seed, shard, nshards):
 
             for which, stage in (("train", train), ("test", test)):
                 if stage.size == 0:
+                    # a zero-row stage has no row ids to compare, but it still carries the lineage's mappings (a model
+                    # or an experiment space derived from it must keep its size) through save / load / mask / unmask
+                    rec.case((lhash, which, "empty"), nontrivial=True)
+                    rec.count("zero_row_stages")
+                    w0 = {"lineage": lhash, "which": which, "rows": 0}
+                    cur = stage
+                    check_stage(rec, cur, root, smap, tmap, "holdout-split:" + which, w0)
+                    for op in ("saveload", "mask", "unmask", "saveload"):
+                        try:
+                            if op == "saveload":
+                                cur.save_h5(a_h5)
+                                cur = Screen.load_h5(a_h5)
+                            elif op == "mask":
+                                cur = R.mask_screen(cur)
+                            else:
+                                cur = R.unmask_screen(cur)
+                        except Exception as e:
+                            rec.violation("C03/op/raises", "%s on a zero-row %s screen raised %r" % (op, which, e), w0)
+                            break
+                        if not check_stage(rec, cur, root, smap, tmap, op + ":" + which, w0):
+                            break
+                        sp = ExperimentSpace.from_screen(cur)
+                        rec.check(sp.n_unique_samples >= ns0 and sp.n_unique_treatments >= nt0, "C03/space/shrinks", lambda: "embedding sizes of the zero-row %s screen are (%d, %d) after %s, the lineage implies (%d, %d)" % (which, sp.n_unique_samples, sp.n_unique_treatments, op, ns0, nt0), w0)
                     continue
                 hist = []
                 kept = []
